@@ -21,8 +21,8 @@ ASSUMPTIONS = ["the library oracle runs with StdFs/StdLogger in the same working
 
 def plan(tier):
     if tier == "quick":
-        return {"budget_s": 45, "profiles": ["R", "cli"], "min_evaluations": 1000}
-    return {"budget_s": 400, "profiles": ["R", "cli", "cli-release"], "min_evaluations": 20000}
+        return {"budget_s": 45, "profiles": ["R", "cli"], "min_evaluations": 150}
+    return {"budget_s": 400, "profiles": ["R", "cli", "cli-release"], "min_evaluations": 150}
 
 
 WARNY = [
